@@ -32,8 +32,8 @@ def against(exp: Dict[str, Any], o: Dict[str, Any], backend: str) -> List[str]:
         lb = [(norm(c["name"]), [nnull(x) for x in c["cells"]]) for c in b["cols"]]
         if la != lb:
             out.append("%s: parsed table %s differs from the predicted %s" % (backend, lb, la))
-        da = [c["pd"] for c in a["cols"]]
-        db = [PHYS.get(c["pd"], c["pd"]) for c in b["cols"]]
+        da = [c["pd"].lower() for c in a["cols"]]            # nullable Int64 and int64 are one integer dtype on polars
+        db = [PHYS.get(c["pd"], c["pd"]).lower() for c in b["cols"]]
         if da != db:
             out.append("%s: column dtypes %s, predicted %s" % (backend, db, da))
     else:
@@ -43,6 +43,16 @@ def against(exp: Dict[str, Any], o: Dict[str, Any], backend: str) -> List[str]:
                 col = c[2] if len(c) > 2 else e["col"]
                 want[(norm(col), norm(c[0]))] += 1
         got = Counter((norm(c[0]), norm(c[1])) for c in o["cells"])
+        # the polars back end names the PATTERN of a regex column in its failure cases, not the matched column
+        # (known finding PolarsRegexFailureNamesPattern): such an entry stands for any column at that row
+        wild = {k for k in got if k[0][0] == "?"} if backend == "polars" else set()
+        if wild:
+            rows = {k[1] for k in wild}
+            got2 = {k for k in got if k not in wild}
+            want2 = {k for k in want if k[1] not in rows or k in got2}
+            if got2 == want2 and all(any(w[1] == r for w in want) for r in rows):
+                out.append("KNOWN:PolarsRegexFailureNamesPattern")
+                return out
         if set(want) != set(got):
             out.append("%s: failing cells %s, predicted %s" % (backend, sorted(got), sorted(want)))
     return out
@@ -57,12 +67,15 @@ def compare(vec: Dict[str, Any], obs: Dict[str, Any]) -> Outcome:
         pdm = []
     oc.mismatches += pdm
     pm = against(exp, obs["polars"], "polars")
+    if pm == ["KNOWN:PolarsRegexFailureNamesPattern"]:
+        oc.known = oc.known + ["PolarsRegexFailureNamesPattern"]
+        pm = []
     devs = vec.get("polars_devs") or []
     if pm and devs:
-        exact = {"PolarsUniqueReportsAllMembers", "PolarsStrMatchesTopLevelAlt"}
+        exact = {"PolarsUniqueReportsAllMembers", "PolarsStrMatchesTopLevelAlt", "PolarsRegexNoMatchAccepted"}
         if set(devs) <= exact:
             # value-level deviations have an exact alternative prediction
-            if not against(vec["polars_asis"], obs["polars"], "polars"):
+            if against(vec["polars_asis"], obs["polars"], "polars") in ([], ["KNOWN:PolarsRegexFailureNamesPattern"]):
                 oc.known = oc.known + list(devs)
                 pm = []
         else:
